@@ -138,6 +138,91 @@ def scan_assumptions(text):
     return found
 
 
+
+def _unmask(m, lines, obl, extra):
+    """Second pass against error masking (see the call site).  Two carriers of masking are handled per function:
+    (a) a failed labelled POSTCONDITION clause group -> removed from the function's ensures in the variant;
+    (b) a failed one-line `assert(..);` of a labelled proof hint inside the body -> commented out in the variant.
+    (b) relies on the labelling discipline of the units: a hint carries the label of the clause it supports, so removing
+    a failed hint labelled L can only weaken clauses labelled L, which have failed already.  Multi-line assertions are
+    left in place (then later obligations of that path may stay masked; reported as a warning in the error text)."""
+    rs = m["rs"]
+    for (s_, e_, fk) in m["fnmap"]:
+        region = []
+        for ln in range(s_, e_ + 1):
+            st = lines[ln - 1].strip()
+            if ln > s_ and (st == "{" or st.startswith("{")):
+                break
+            region.append(ln)
+        clause_labs = sorted({m["linemap"].get(str(ln)) for ln in region} - {None})
+        clause_labs = [l for l in clause_labs if l in obl and obl[l]["kind"] == "clause"]
+        if not clause_labs:
+            continue
+        removed = set()          # labels whose postcondition groups are dropped
+        dead_lines = set()       # body lines (failed hint asserts) commented out
+        for _round in range(len(clause_labs) + 8):
+            new_removed = {l for l in clause_labs if not obl[l]["discharged"] and l not in removed
+                           and any(e["function"] == fk and "postcondition" in (e["message"] or "") for e in obl[l]["errors"])}
+            new_dead = set()
+            for l, o in obl.items():
+                for e in o["errors"]:
+                    if e["function"] == fk and "assertion failed" in (e["message"] or "") and s_ <= e["line"] <= e_ \
+                            and e["line"] not in dead_lines and e["line"] not in region:
+                        st = lines[e["line"] - 1].strip()
+                        if st.startswith("assert(") and st.endswith(");"):
+                            new_dead.add(e["line"])
+            if not new_removed and not new_dead:
+                break
+            removed |= new_removed
+            dead_lines |= new_dead
+            if len(removed) >= len(clause_labs):
+                break
+            drop = {ln for ln in region if m["linemap"].get(str(ln)) in removed}
+            var = []
+            for k, l in enumerate(lines):
+                if (k + 1) in drop:
+                    var.append("")
+                elif (k + 1) in dead_lines:
+                    var.append("// [unmask] " + l.strip())
+                else:
+                    var.append(l)
+            vpath = rs[:-3] + "_unmask.rs"
+            with open(vpath, "w") as f:
+                f.write("\n".join(var) + "\n")
+            res = _run_verus(vpath, list(extra) + ["--verify-function", fk, "--verify-root"])
+            vfile = os.path.basename(vpath)
+            newfail = False
+            for d in res["diags"]:
+                c = classify(d)
+                if c == "frontend":
+                    raise RuntimeError("variant for %s does not compile: %s" % (fk, (d.get("message") or "")[:200]))
+                if c != "verif":
+                    continue
+                spans = [x for x in (resolve_span(sp, vfile) for sp in d.get("spans", [])) if x is not None]
+                msg = d.get("message") or ""
+                if "postcondition" in msg:
+                    cand = [sp for sp in spans if (sp.get("label") or "").startswith("failed this ")]
+                elif "assertion failed" in msg:
+                    cand = [sp for sp in spans if sp.get("is_primary")]
+                else:
+                    continue
+                for sp in cand:
+                    for ln in range(sp["line_start"], sp["line_end"] + 1):
+                        lab = m["linemap"].get(str(ln))
+                        if lab in obl and lab not in removed and obl[lab]["discharged"]:
+                            obl[lab]["discharged"] = False
+                            obl[lab]["errors"].append(dict(
+                                message=msg + " (found by the unmasking pass: hidden behind %s)" % ", ".join(sorted(removed | {m["linemap"].get(str(x), "?") for x in dead_lines})),
+                                function=fk, line=ln, rendered=(d.get("rendered") or "")[:4000]))
+                            newfail = True
+                        elif lab in obl and "assertion failed" in msg and ln not in dead_lines:
+                            # a further failing hint of an already failed label: record it so that the next round removes it
+                            obl[lab]["errors"].append(dict(message=msg, function=fk, line=ln, rendered=(d.get("rendered") or "")[:2000]))
+                            newfail = True
+            if not newfail:
+                break
+
+
 def verify_unit(unit, canary=True, extra=()):
     r = UnitResult()
     r.unit = unit
@@ -248,6 +333,16 @@ def verify_unit(unit, canary=True, extra=()):
         obl[label]["discharged"] = False
         obl[label]["errors"].append(dict(message=d.get("message"), function=fnname, line=pl,
                                          rendered=(d.get("rendered") or "")[:4000]))
+    # ---- unmasking pass.  With --multiple-errors Verus ASSUMES a failed postcondition and checks the following
+    # clauses of the same exit under that assumption; a false earlier clause therefore masks every later one (which may
+    # carry a different property).  For each function with a failed labelled postcondition, re-verify ONLY that
+    # function on a variant of the file where the already-failed clause groups are removed from its ensures, until no
+    # new clause fails.  Callers are not re-verified in this pass, so removing clauses from the contract cannot affect them.
+    if not frontend and not resource:
+        try:
+            _unmask(m, lines, obl, extra)
+        except Exception as e:          # the pass can only ADD failures; if it breaks, say so instead of hiding it
+            frontend.append("unmasking pass failed: %r" % (e,))
     r.obligations = obl
     r.frontend = frontend
     r.resource = resource
